@@ -295,6 +295,12 @@ fn timer_regs(cpu: &Cpu) -> [u8; 5] {
 /// Run `elf` with `args` through the real loader and run loop while a twin predicts every
 /// iteration. Returns the run result and the findings of the tracer.
 pub fn traced_run(elf_path: &str, args: &str, with_twin: bool, max_ticks: u64) -> (RunResult, Vec<(String, String)>) {
+    traced_run_from(elf_path, args, with_twin, max_ticks, 0)
+}
+
+/// As `traced_run`, with the state count starting at `start` (a system that has been running for a
+/// long time: counters beyond 2^31 / 2^32).
+pub fn traced_run_from(elf_path: &str, args: &str, with_twin: bool, max_ticks: u64, start: u64) -> (RunResult, Vec<(String, String)>) {
     let mut rig = RunRig::new();
     crate::elf::load(elf_path.to_string(), &mut rig.cpu, args.to_string());
     let trace = shared(Trace::default());
@@ -313,6 +319,13 @@ pub fn traced_run(elf_path: &str, args: &str, with_twin: bool, max_ticks: u64) -
     let tick = Box::new(move |cpu: &mut Cpu| {
         let mut t = tr.borrow_mut();
         t.ticks += 1;
+        if t.ticks == 1 && start != 0 {
+            cpu.verif_set_state_sum(start as usize);
+            if let Some(tw) = &tw {
+                tw.borrow_mut().cpu.bus.cpu_state_sum = start as usize;
+            }
+            t.sum = start;
+        }
         if t.stopped {
             return;
         }
@@ -349,7 +362,7 @@ pub fn traced_run(elf_path: &str, args: &str, with_twin: bool, max_ticks: u64) -
             }
             // sync message expected?
             let before = t.sum;
-            if sum / SYNC_INTERVAL > before / SYNC_INTERVAL {
+            if (sum - start) / SYNC_INTERVAL > (before - start) / SYNC_INTERVAL {
                 t.expected_msgs.push(format!("sync:{}", sum));
                 t.crossed += 1;
             }
@@ -441,7 +454,7 @@ pub fn traced_run(elf_path: &str, args: &str, with_twin: bool, max_ticks: u64) -
                 if delta != k * t.last_states as u64 {
                     findings.push(("accounting.state-sum".into(), format!("last instruction returned {} states (x{}), state count advanced by {}", t.last_states, k, delta)));
                 }
-                if sum / SYNC_INTERVAL > t.sum / SYNC_INTERVAL {
+                if (sum - start) / SYNC_INTERVAL > (t.sum - start) / SYNC_INTERVAL {
                     t.expected_msgs.push(format!("sync:{}", sum));
                     t.crossed += 1;
                 }
@@ -454,6 +467,28 @@ pub fn traced_run(elf_path: &str, args: &str, with_twin: bool, max_ticks: u64) -
             }
             (Some(RunEnd::Panic(_)), RunEnd::Panic(_)) => {}
             (want, got) => findings.push(("end-condition".into(), format!("run loop ended with {:?} after {} iterations; the twin says {:?}", got, t.ticks, want))),
+        }
+        // one time base, independent of the twin: every stamp the run emits (ioport:<p>:<v>:<stamp>,
+        // sync:<total>) lies between the starting and the final state count and never decreases
+        {
+            let end_sum = rig.cpu.verif_state_sum() as u64;
+            let mut last = start;
+            for m in &msgs {
+                let stamp = if let Some(x) = m.strip_prefix("sync:") {
+                    x.parse::<u64>().ok()
+                } else if m.starts_with("ioport:") {
+                    m.rsplit(':').next().and_then(|x| x.parse::<u64>().ok())
+                } else {
+                    continue;
+                };
+                match stamp {
+                    Some(s) if s >= last && s <= end_sum => last = s,
+                    _ => {
+                        findings.push(("time-base".into(), format!("message {:?}: stamp outside [{} (previous stamp / start), {} (final state count)]", m, last, end_sum)));
+                        break;
+                    }
+                }
+            }
         }
         if msgs != t.expected_msgs {
             let i = msgs.iter().zip(t.expected_msgs.iter()).position(|(a, b)| a != b).unwrap_or(msgs.len().min(t.expected_msgs.len()));
@@ -490,8 +525,11 @@ pub fn c13_case(rep: &mut Report, seed: u64, verbose: bool) -> bool {
     std::fs::write(&path, &elf).expect("write elf");
     let args = if rng.chance(1, 2) { "a bc".to_string() } else { String::new() };
     let replay = format!("check=C13 kind=runloop seed={}", seed);
-    let (res, findings) = traced_run(&path, &args, true, 6_000_000);
+    // one program in four runs on a system that has been up for a long time (state count near a power of two)
+    let start: u64 = if rng.chance(1, 4) { (1u64 << *rng.pick(&[31u32, 32, 32, 33, 40])) - rng.below(6000) } else { 0 };
+    let (res, findings) = traced_run_from(&path, &args, true, 6_000_000, start);
     rep.evaluations += 1;
+    rep.cell("start-count-magnitude", &[(64 - start.leading_zeros()) as u64]);
     if res.gave_up {
         rep.count("programs_not_finished_within_iteration_limit (inconclusive, skipped)", 1);
         let _ = std::fs::remove_file(&path);
@@ -536,7 +574,7 @@ pub fn c13_case(rep: &mut Report, seed: u64, verbose: bool) -> bool {
                     }));
                 }
             }
-            let (r, _) = traced_run(&path, &args, false, 6_000_000);
+            let (r, _) = traced_run_from(&path, &args, false, 6_000_000, start);
             busy.store(false, std::sync::atomic::Ordering::Relaxed);
             for h in handles {
                 let _ = h.join();
